@@ -306,6 +306,8 @@ def run_one(seed, preset=None, tier="quick", want_case=False):
         sch = pick_scheduler(cfgt)
         loop = SimLoop(tape.sub("sched"), sch[0], sch[1], "mixed")
         # introspection is served by the same executor as everything else: the concurrency options are varied here too
+        import locale as _locale
+        default_encoding = tape.sub("engopts.enc").chance(40) and _locale.getpreferredencoding(False).lower().replace("-", "") == "utf8"
         ot_ = tape.sub("engopts")
         engine_opts = {}
         if ot_.chance(50):
@@ -340,7 +342,10 @@ def run_one(seed, preset=None, tier="quick", want_case=False):
                 if td.kind == "SCALAR" and td.custom:
                     Scalar(td.name, schema_name=name)(XStr() if td.custom == "xstr" else XNum())
             await asyncio.sleep(0)
-            return await create_engine(supplies[mode], schema_name=name, sdl_file_encoding=file_encoding, **engine_opts)
+            enc_kw = {"sdl_file_encoding": file_encoding}
+            if file_encoding == "utf-8" and default_encoding:
+                enc_kw = {}  # UTF-8 files read with the engine's default encoding (the interpreter runs in UTF-8 mode)
+            return await create_engine(supplies[mode], schema_name=name, **enc_kw, **engine_opts)
 
         async def ask(mode, engine, label, text):
             await loop.point(("ask", mode, label))
